@@ -163,6 +163,18 @@ def comprehension_over_reclist(eng, comp_node, st):
     if len(comp_node.generators) != 1:
         return None
     comp = comp_node.generators[0]
+    if (isinstance(comp.target, ast.Tuple) and len(comp.target.elts) == 2 and all(isinstance(e, ast.Name) for e in comp.target.elts)
+            and isinstance(comp.iter, ast.Call) and isinstance(comp.iter.func, ast.Name) and comp.iter.func.id == 'enumerate'
+            and st.lookup('enumerate') is None and not comp.ifs and len(comp.iter.args) >= 1):
+        # [elt for i, x in enumerate(xs, start)]: element ix of the result is elt(start + ix, xs[ix])
+        start = IntV(0)
+        if len(comp.iter.args) == 2:
+            start = eng.ev1(comp.iter.args[1], st).t
+        for kw in comp.iter.keywords:
+            if kw.arg == 'start':
+                start = eng.ev1(kw.value, st).t
+        xs = eng.ev1(comp.iter.args[0], st)
+        return comprehension_over_seq(eng, comp_node, comp, xs, st, enum_start=start)
     if not isinstance(comp.target, ast.Name):
         return None
     rl = eng.ev1(comp.iter, st)
@@ -196,7 +208,7 @@ def comprehension_over_reclist(eng, comp_node, st):
     return VSeq(Substr(L, IntV(0), rl.n), ty)
 
 
-def comprehension_over_seq(eng, comp_node, comp, itv, st):
+def comprehension_over_seq(eng, comp_node, comp, itv, st, enum_start=None):
     """``[elt for x in xs]`` for a sequence of primitives xs: the sequence L with len(L) == len(xs) and
     L[ix] == elt(xs[ix]) (attached as axioms of the constant L; cached per (xs, elt))."""
     from .smt import ForAll, Implies, Le, Lt
@@ -210,7 +222,11 @@ def comprehension_over_seq(eng, comp_node, comp, itv, st):
     s2 = st.copy()
     fid = s2.new_frame(s2.cur)
     s2.cur = fid
-    s2.bind(comp.target.id, wrap(At(seq, var), elem))
+    if enum_start is not None:
+        s2.bind(comp.target.elts[0].id, VInt(Add(enum_start, var)))
+        s2.bind(comp.target.elts[1].id, wrap(At(seq, var), elem))
+    else:
+        s2.bind(comp.target.id, wrap(At(seq, var), elem))
     e = eng.ev1(comp_node.elt, s2)
     if isinstance(e, (VInt, VStr, VBool)):
         t, ty = e.t, e.ty
